@@ -242,7 +242,7 @@ theorem c02_cut_together {cfg : Cfg} {st0 : State} (h0 : start cfg = .ok st0) (o
   refine ⟨hk.sid, ?_, ?_⟩
   · have := congrArg (List.map (fun k : Int × Int × Int × List (Int × Int) => (k.1, k.2.1, k.2.2.1))) (reals_key hk.segs)
     simpa [List.map_map, Seg.key, Function.comp_def] using this
-  · have := congrArg (Option.map (fun k : Int × Int × List (Int × Int) => (k.1, k.2.1))) hk.opn
+  · have := congrArg (Option.map (fun k : Int × Int × Bool × List (Int × Int) => (k.1, k.2.1))) hk.opn
     simpa [Option.map_map, Seg.okey, Function.comp_def] using this
 
 /-- **The init segment declares exactly the stream's tracks**: in every reachable state, whatever is registered
@@ -277,6 +277,27 @@ theorem c02_init_after_change_lead {cfg : Cfg} {st0 : State} (h0 : start cfg = .
     lookupPath (rotateSegments (run st0 ops) d n f).paths (.init (leadStream st0)) =
       some (.init (((run st0 ops).stream (leadStream st0)).tracks.map fun t => ((run st0 ops).track t).params)) :=
   rotateSegments_init_lead (reach_GI h0 ops) (leadStream_fmp4 h0 hv ops).1 ho hp hf d n f
+
+/-- **After a forced rotation every stream's init carries the current parameters** (muxer level, every stream): in a
+reachable state of an fMP4-variant muxer whose open segment was opened by a forced rotation (the flag is the same in
+all streams — it is part of what `c02_cut_together`'s invariant keeps equal), one `rotateSegments` registers, for
+EVERY stream `si`, an init handler built from the parameters that stream's tracks have at that moment. -/
+theorem c02_init_after_change_all {cfg : Cfg} {st0 : State} (h0 : start cfg = .ok st0) (hv : cfg.variant ≠ .mpegts)
+    (ops : List WriteOp) (oL : Seg)
+    (hoL : ((run st0 ops).stream (leadStream st0)).nextSegment = some oL) (hforced : oL.forced = true)
+    (d n : Int) (f : Bool) (si : Nat) (hsi : si < st0.streams.length) :
+    lookupPath (rotateSegments (run st0 ops) d n f).paths (.init si) =
+      some (.init (((run st0 ops).stream si).tracks.map fun t => ((run st0 ops).track t).params)) := by
+  have hg := reach_GI h0 ops
+  have hv' := (leadStream_fmp4 h0 hv ops).1
+  have hl : si < (run st0 ops).streams.length := by rw [run_len h0]; exact hsi
+  have hk := (hg.key si hl).symm
+  obtain ⟨o, ho, hko⟩ := opt_map_some (hoL ▸ hk.opn)
+  have hfo : o.forced = true := by
+    simp only [Seg.okey, Prod.mk.injEq] at hko
+    rw [hko.2.2.1]; exact hforced
+  obtain ⟨p, hp⟩ := Option.isSome_iff_exists.1 (((hg.sinv si hl).partIff hv').1 (by rw [ho]; rfl))
+  exact rotateSegments_init_all hg hv' si hl ho hp (Or.inr hfo) d n f
 
 /-! ## Non-vacuity: a concrete Low-Latency muxer (H264 + AAC), rotations, a parameter change on an IDR -/
 
